@@ -24,10 +24,15 @@ const ticketLifetime = 60 * 60 * 24 * 7
 //	restart                  new ClientFactory on the same state directory
 //	age      addr delta      move the stored ticket's issue time delta seconds back (in memory)
 //	agefile  addr delta      the same in the ticket file, then restart
+//
+// FaultGet / FaultPut: the ticket file cannot be written while the connect queries the store
+// (the checkpoint after the removal of a redeemed ticket fails) / while the new ticket is stored.
 type TOp struct {
-	Op    string `json:"op"`
-	Addr  int    `json:"addr,omitempty"`
-	Delta int64  `json:"delta,omitempty"`
+	Op       string `json:"op"`
+	Addr     int    `json:"addr,omitempty"`
+	Delta    int64  `json:"delta,omitempty"`
+	FaultGet bool   `json:"fault_get,omitempty"`
+	FaultPut bool   `json:"fault_put,omitempty"`
 }
 
 func (o TOp) String() string {
@@ -37,7 +42,49 @@ func (o TOp) String() string {
 	case "age", "agefile":
 		return fmt.Sprintf("%s(%d,%d)", o.Op, o.Addr, o.Delta)
 	}
-	return fmt.Sprintf("%s(%d)", o.Op, o.Addr)
+	f := ""
+	if o.FaultGet {
+		f += "!get"
+	}
+	if o.FaultPut {
+		f += "!put"
+	}
+	return fmt.Sprintf("%s%s(%d)", o.Op, f, o.Addr)
+}
+
+// writeFault makes every write of the ticket file fail for the process (the harness runs as root,
+// permissions would not): the file is moved aside and a non-empty directory takes its name, so
+// neither an in-place write nor a rename onto it can succeed. clear() puts the old file back: the
+// disk is then exactly as before the fault, as after any failed checkpoint.
+type writeFault struct {
+	file  string
+	armed bool
+	saved bool
+}
+
+func (w *writeFault) arm() {
+	if w.armed {
+		return
+	}
+	if _, err := os.Stat(w.file); err == nil {
+		must(os.Rename(w.file, w.file+".aside"))
+		w.saved = true
+	}
+	must(os.Mkdir(w.file, 0o700))
+	must(os.WriteFile(filepath.Join(w.file, "blocker"), []byte("x"), 0o600))
+	w.armed = true
+}
+
+func (w *writeFault) clear() {
+	if !w.armed {
+		return
+	}
+	must(os.RemoveAll(w.file))
+	if w.saved {
+		must(os.Rename(w.file+".aside", w.file))
+	}
+	os.Remove(w.file + ".tmp")
+	w.armed, w.saved = false, false
 }
 
 func (e *env) ticketCases() {
@@ -52,6 +99,14 @@ func (e *env) ticketCases() {
 		{{Op: "issue", Addr: 0}, {Op: "agefile", Addr: 0, Delta: L - 3600}, {Op: "connect", Addr: 0}, {Op: "restart"}, {Op: "connect", Addr: 0}},
 		{{Op: "connect", Addr: 1}, {Op: "issue", Addr: 0}, {Op: "connect", Addr: 1}, {Op: "issue", Addr: 0}, {Op: "issue", Addr: 0}, {Op: "connect", Addr: 0}, {Op: "connect", Addr: 0}},
 		{{Op: "issue", Addr: 0}, {Op: "issue", Addr: 1}, {Op: "restart"}, {Op: "connect", Addr: 1}, {Op: "restart"}, {Op: "connect", Addr: 0}, {Op: "connect", Addr: 1}},
+		// write faults: at the redeeming connect, at the storing of a new ticket, at both
+		{{Op: "issue", Addr: 0}, {Op: "connect", Addr: 0, FaultGet: true}, {Op: "restart"}, {Op: "connect", Addr: 0}, {Op: "restart"}, {Op: "connect", Addr: 0}},
+		{{Op: "issue", Addr: 0}, {Op: "connect", Addr: 0, FaultGet: true}, {Op: "connect", Addr: 0}, {Op: "restart"}, {Op: "connect", Addr: 0}, {Op: "connect", Addr: 0}},
+		{{Op: "issue", Addr: 0, FaultPut: true}, {Op: "connect", Addr: 0}, {Op: "restart"}, {Op: "connect", Addr: 0}},
+		{{Op: "issue", Addr: 0, FaultPut: true}, {Op: "restart"}, {Op: "connect", Addr: 0}},
+		{{Op: "issue", Addr: 0}, {Op: "issue", Addr: 0, FaultGet: true, FaultPut: true}, {Op: "restart"}, {Op: "connect", Addr: 0}, {Op: "restart"}, {Op: "connect", Addr: 0}},
+		{{Op: "issue", Addr: 0}, {Op: "issue", Addr: 1}, {Op: "connect", Addr: 0, FaultGet: true}, {Op: "connect", Addr: 1}, {Op: "restart"}, {Op: "connect", Addr: 0}, {Op: "connect", Addr: 1}, {Op: "restart"}, {Op: "connect", Addr: 0}},
+		{{Op: "issue", Addr: 0}, {Op: "age", Addr: 0, Delta: L + 3600}, {Op: "connect", Addr: 0, FaultGet: true}, {Op: "restart"}, {Op: "connect", Addr: 0}},
 	}
 	for _, h := range fixed {
 		e.ticketCase(Case{Kind: "tickets", Seed: e.seed, Ops: h})
@@ -64,9 +119,9 @@ func (e *env) ticketCases() {
 			a := rng.Intn(3)
 			switch rng.Intn(10) {
 			case 0, 1, 2:
-				h = append(h, TOp{Op: "issue", Addr: a})
+				h = append(h, TOp{Op: "issue", Addr: a, FaultGet: rng.Intn(6) == 0, FaultPut: rng.Intn(6) == 0})
 			case 3, 4, 5, 6:
-				h = append(h, TOp{Op: "connect", Addr: a})
+				h = append(h, TOp{Op: "connect", Addr: a, FaultGet: rng.Intn(4) == 0})
 			case 7:
 				h = append(h, TOp{Op: "restart"})
 			case 8:
@@ -113,6 +168,8 @@ func (e *env) ticketCase(c Case) {
 	addrs := []string{"192.0.2.1:443", "192.0.2.2:9001", "[2001:db8::1]:443"}
 	tickets := map[string]*issued{} // by ticket hex
 	var trace []string
+	fault := &writeFault{file: file}
+	defer fault.clear()
 	presented, expiredSeen := 0, 0
 	// once model and implementation disagree the correspondence part of this history is over
 	// (one violation is recorded); the property oracle goes on to the end of the history
@@ -139,12 +196,14 @@ func (e *env) ticketCase(c Case) {
 			return true
 		}
 		b, err := os.ReadFile(file)
+		rep := e.call("st.file")
 		if err != nil {
-			e.r.Violate("ticket-file-missing", "correspondence", fmt.Sprintf("history %v, after %s: %v", trace, where, err), c)
-			diverged = true
+			if rep[0] != "none" {
+				e.r.Violate("ticket-file-missing", "correspondence", fmt.Sprintf("history %v, after %s: %v", trace, where, err), c)
+				diverged = true
+			}
 			return true
 		}
-		rep := e.call("st.file")
 		if rep[0] != "ok" || !bytes.Equal(vlib.UnHex(rep[1]), b) {
 			e.r.Violate("model-impl-disagree-ticket-file", "correspondence",
 				fmt.Sprintf("history %v, after %s: ticket file differs from the model's serialisation: %q", trace, where, trunc(string(b), 120)), c)
@@ -224,12 +283,44 @@ func (e *env) ticketCase(c Case) {
 					}
 				}
 			}
+			if op.FaultGet {
+				fault.arm()
+			}
 			s, flight, hour, err := e.connect(cf, addr, int(rng.Intn(40)))
+			fault.clear()
+			wGet := "1"
+			if op.FaultGet {
+				wGet = "0"
+				e.r.Count("write_fault", "at-connect")
+			}
+			model := e.call("st.connect %s %d %s", addr, before, wGet)
+			if err != nil && op.FaultGet && held != nil {
+				// the checkpoint after the removal of the held ticket failed and the client gave the
+				// connection up: nothing may have been presented
+				e.r.Count("flight", "none-checkpoint-error")
+				if len(flight) != 0 {
+					e.r.Violate("bytes-sent-by-failed-dial", "impl-oracle", fmt.Sprintf("history %v: Dial failed (%v) after writing %d bytes", trace, err, len(flight)), c)
+					return
+				}
+				if !diverged && model[0] != "error" {
+					e.r.Violate("model-impl-disagree-flight-kind", "correspondence",
+						fmt.Sprintf("history %v: Dial failed with %v, model says %s", trace, err, model[0]), c)
+					diverged = true
+				}
+				checkFile("connect under a write fault")
+				checkStore("connect under a write fault")
+				e.r.Count("ticket_op", op.Op)
+				continue
+			}
 			if err != nil {
 				e.r.Violate("handshake-fails", "impl-oracle", fmt.Sprintf("history %v: step %d handshake failed: %v", trace, i, err), c)
 				return
 			}
-			model := e.call("st.connect %s %d", addr, before)
+			if !diverged && model[0] == "error" {
+				e.r.Violate("model-impl-disagree-flight-kind", "correspondence",
+					fmt.Sprintf("history %v: the client went on (%s flight) although the checkpoint after the ticket removal failed; the model says the connection fails", trace, s.mode), c)
+				diverged = true
+			}
 			id := "tk"
 			if s.mode == "ticket" {
 				presented++
@@ -327,8 +418,15 @@ func (e *env) ticketCase(c Case) {
 				w := e.srvSend(id, spkt{flagTkt, raw, int(rng.Intn(30))})
 				w = append(w, e.srvSend(id, spkt{flagData, []byte("ack"), 0})...)
 				t0 := time.Now().Unix()
+				wPut := "1"
+				if op.FaultPut {
+					fault.arm()
+					wPut = "0"
+					e.r.Count("write_fault", "at-store")
+				}
 				s.sc.Feed(w)
 				got, rerr, _, pan := s.read(3, 100)
+				fault.clear()
 				t1 := time.Now().Unix()
 				if pan != nil || rerr != nil || string(got) != "ack" {
 					e.r.Violate("stream-not-exact-server-to-client", "impl-oracle",
@@ -350,7 +448,7 @@ func (e *env) ticketCase(c Case) {
 					return
 				}
 				tickets[fmt.Sprintf("%x", tk)] = &issued{master: master, addr: addr}
-				e.call("st.store %s %s %d", addr, vlib.Hex(raw), at)
+				e.call("st.store %s %s %d %s", addr, vlib.Hex(raw), at, wPut)
 				if !checkFile("issue") || !checkStore("issue") {
 					s.close()
 					return
